@@ -95,9 +95,10 @@ inline std::string b2sx(const Oct &o) { return std::string(o.begin(), o.end()); 
 
 inline int pgp_armor_decode(const std::string &s) { Oct out; tmcg_openpgp_armor_t t = PGP::ArmorDecode(s, out); g_sink += out.size(); return t == TMCG_OPENPGP_ARMOR_UNKNOWN ? REFUSED : ACCEPTED; }
 
+static size_t g_pkt_loop_max = 100000;   // the fuzz targets stop after fewer packets (throughput)
 inline int pgp_packet_decode(const std::string &s) {
 	Oct pkts = str2oct(s); size_t good = 0, n = 0;
-	while (pkts.size() && n < 100000) {
+	while (pkts.size() && n < g_pkt_loop_max) {
 		tmcg_openpgp_packet_ctx_t ctx; Oct cur; tmcg_openpgp_notations_t notations; tmcg_openpgp_multiple_octets_t es, rf;
 		std::vector<gcry_mpi_t> qual, xq, v_i; std::vector<std::string> capl; std::vector<std::vector<gcry_mpi_t>> c_ik;
 		tmcg_openpgp_byte_t tag = PGP::PacketDecode(pkts, 0, ctx, cur, qual, xq, capl, v_i, c_ik, notations, es, rf);
